@@ -251,3 +251,63 @@ def repository_discovered_upwards(ctx):
                       "the repository handed to the walker for a root must be found with Repository::discover (upward search); with "
                       "Repository::open a root inside a work tree has no repository and nothing is git-ignored")
     ctx.covered("repository lookup for search roots", max(n, 1), distinct_keys=["discover"])
+
+
+def literal_is_its_text(ctx):
+    """X-LITVALUE: a literal of the query evaluates to the text written in the query (with its sign): the literal branch of
+    Searcher::get_column_expr_value is evaluated (finite interpreter, crate calls interpreted) on literal expressions whose
+    text looks numeric but is not in the form Rust prints, and the text of the resulting Variant is compared"""
+    import interp
+    name = "searcher::Searcher::get_column_expr_value"
+    h = ctx.anchor_hir(name)
+    ps = ctx.prog.fns[name]["params"]
+    pid = {p.get("name"): p["id"] for p in ps}
+    if "column_expr" not in pid:
+        cands = [p for p in ps if "Expr" in str(p.get("ty", ""))]
+        if len(cands) != 1:
+            ctx.violation("literal-value/anchor", ctx.where(name), "the expression parameter of get_column_expr_value was not found")
+            return
+        pid["column_expr"] = cands[0]["id"]
+    ts = ctx.prog.hir("function::Variant::to_string")
+    n = 0
+    texts = ["abc", "5", "1.50", "007", "1e3", "3.0", "inf", ""]
+
+    def call(node, recv, args, it, env):
+        callee = str(node.get("callee", ""))
+        m = node.get("m")
+        if m == "to_string" and isinstance(recv, dict) and "val" in recv:
+            return ("<text of the expression>",)
+        if m in ("contains_key", "get") and not isinstance(recv, (dict, list, str)):
+            return (False,) if m == "contains_key" else (interp.NONE,)
+        return None
+    for text in texts:
+        for minus in (False, True):
+            expr = {"left": interp.NONE, "right": interp.NONE, "arithmetic_op": interp.NONE, "logical_op": interp.NONE, "op": interp.NONE,
+                    "field": interp.NONE, "function": interp.NONE, "args": interp.NONE, "val": interp.some(text), "minus": minus,
+                    "weight": 0}
+            env = {p["id"]: interp.Opaque(p.get("name") or "?") for p in ps}
+            env[pid["column_expr"]] = expr
+            for p in ps:
+                if p.get("name") == "file_map":
+                    env[p["id"]] = {}
+            want = ("-" if minus else "") + text
+            n += 1
+            try:
+                got = interp.Interp(call=call, prog=ctx.prog, max_steps=20000).run(h, env)
+                if isinstance(got, dict) and ts is not None:
+                    tps = ctx.prog.fns["function::Variant::to_string"]["params"]
+                    got_text = interp.Interp(prog=ctx.prog).run(ts, {tps[0]["id"]: got})
+                else:
+                    got_text = got
+            except interp.Undecided as e:
+                ctx.obligation(False)
+                ctx.violation("literal-value/unreadable", ctx.where(name), "cannot evaluate the value of the literal `%s`: %s" % (text, e))
+                return
+            ok = got_text == want
+            ctx.obligation(ok)
+            if not ok:
+                ctx.violation("literal-value/%s" % ("numeric-looking" if text not in ("abc", "") else "text"), ctx.where(name),
+                              "the literal `%s`%s evaluates to the text `%s`: a literal is the text written in the query (`%s`), which is "
+                              "what the string functions and the text comparisons must see" % (text, " with a leading minus" if minus else "", got_text, want))
+                return
+    ctx.covered("literal expressions evaluated through get_column_expr_value (text preserved)", n, distinct_keys=texts, exhaustive=True)
